@@ -260,3 +260,59 @@ M("circle-percent-per-axis", ["C03"], "circle r percent resolved per axis again 
   ('            and self.rx.units == "%"\n            and isinstance(width, (int, float))', '            and self.rx.units == "%%"\n            and isinstance(width, (int, float))'))
 M("rect-clamp-before-units", ["C03"], "corner radii with units are never clamped (the repaired defect)",
   ("        # Sizes or radii that carried units could not be compared before: clamp the radii now.\n        self._validate_rect()\n", ""))
+
+# ---- documents: fault tolerance (C10) -----------------------------------------------------------------------
+M("container-guard-reraises", ["C10"], "a container in error aborts the parse again (the repaired defect)",
+  ('                    # The element is in error: it and its content are not rendered.\n                    values[SVG_ATTR_DISPLAY] = SVG_VALUE_NONE\n                    continue', '                    raise e'))
+M("container-guard-pops-stack", ["C10"], "the guard pops the element stack itself; the end event pops again",
+  ('                    # The element is in error: it and its content are not rendered.\n                    values[SVG_ATTR_DISPLAY] = SVG_VALUE_NONE\n                    continue', '                    context, values, width, height = stack.pop()\n                    continue'))
+M("container-guard-leaks-values", ["C10"], "the attributes of a container in error stay in force for its following siblings",
+  ('                    # The element is in error: it and its content are not rendered.\n                    values[SVG_ATTR_DISPLAY] = SVG_VALUE_NONE\n                    continue', '                    stack[-1] = (context, dict(values), width, height)\n                    values[SVG_ATTR_DISPLAY] = SVG_VALUE_NONE\n                    continue'))
+M("use-cycle-unchecked", ["C10"], "cyclic use references are expanded again (the repaired defect)",
+  ("                    if url is not None and url[1:] not in inside:", "                    if url is not None:"))
+M("use-cycle-ancestors-only", ["C10"], "only direct self references are detected",
+  ("                if SVG_ATTR_ID in semiattr:\n                    inside = active + (semiattr[SVG_ATTR_ID],)", "                if SVG_ATTR_ID in semiattr:\n                    inside = (semiattr[SVG_ATTR_ID],)"))
+M("matrix-parse-indexerror", ["C10"], "malformed transform functions raise IndexError again (the repaired defect)",
+  ("        except (IndexError, TypeError):\n            # A function with missing, surplus or unusable parameters.", "        except (ZeroDivisionError,):\n            # A function with missing, surplus or unusable parameters."))
+M("failed-shape-stops-document", ["C10"], "a shape that cannot be constructed ends the parse (as on_error='stop')",
+  ("                                # s was not established we continue without it.\n                                continue", "                                # s was not established we continue without it.\n                                return root"))
+M("opacity-overflow", ["C10"], "an infinite opacity raises OverflowError again (the repaired defect)",
+  ("        opacity = min(max(opacity, 0.0), 1.0)\n", ""))
+M("incomplete-viewbox-kept", ["C10", "C11"], "an incomplete viewBox is kept (the repaired defect)",
+  ("            # A viewBox without four numbers is in error and is ignored.\n            self.viewbox = None", "            # A viewBox without four numbers is in error and is ignored.\n            pass"))
+M("bad-path-keeps-none-points", ["C10"], "path data drawing before a moveto is returned with None coordinates (the repaired defect)",
+  ("                                # up to the error, which is nothing.\n                                del s[:]", "                                # up to the error, which is nothing.\n                                pass"))
+M("failed-shape-keeps-transform", ["C10"], "a failed element's attributes stay in the inherited values of its following siblings",
+  ("                                # s was not established we continue without it.\n                                continue", "                                # s was not established we continue without it.\n                                stack[-1][1].update(attributes)\n                                continue"))
+
+# ---- documents: cascade and paint (C14) -----------------------------------------------------------------------
+M("cascade-sheet-order-only", ["C14"], "matching rules apply in sheet order, specificity ignored",
+  ("                    matching.append((specificity, rule_index, declarations))", "                    matching.append((0, rule_index, declarations))"))
+M("cascade-typeclass-ties-class", ["C14"], "type.class has the specificity of .class",
+  ("                        specificity = 11", "                        specificity = 10"))
+M("cascade-id-below-class", ["C14"], "an id rule has lower specificity than a class rule (the repaired defect)",
+  ("                        specificity = 100", "                        specificity = 5"))
+M("cascade-glued-rules", ["C14"], "matching rules are concatenated without a separator (the repaired defect)",
+  ('                style = ";".join([declarations for _, _, declarations in matching])', '                style = "".join([declarations for _, _, declarations in matching])'))
+M("inline-style-before-rules", ["C14"], "the inline style is applied before the sheet rules",
+  ("                if SVG_ATTR_STYLE in attributes:\n                    if len(style) != 0:\n                        style += \";\"\n                    style += attributes[SVG_ATTR_STYLE]", "                if SVG_ATTR_STYLE in attributes:\n                    style = attributes[SVG_ATTR_STYLE] + \";\" + style"))
+M("attribute-beats-style", ["C14"], "presentation attributes are not overridden by style declarations",
+  ("                        value = str(equal_item[1]).strip()\n                        attributes[key] = value", "                        value = str(equal_item[1]).strip()\n                        attributes.setdefault(key, value)"))
+M("stroke-not-inherited", ["C14"], "stroke is removed from the inherited values",
+  ("                if SVG_ATTR_CLIP_PATH in values:\n                    del values[SVG_ATTR_CLIP_PATH]\n", "                if SVG_ATTR_CLIP_PATH in values:\n                    del values[SVG_ATTR_CLIP_PATH]\n                values.pop(SVG_ATTR_STROKE, None)\n"))
+M("currentcolor-stroke-uses-inherited-color", ["C14"], "stroke=currentColor ignores the element's own color",
+  ("                    if SVG_ATTR_COLOR in attributes:\n                        attributes[SVG_ATTR_STROKE] = attributes[SVG_ATTR_COLOR]\n                    else:", "                    if False:\n                        attributes[SVG_ATTR_STROKE] = attributes[SVG_ATTR_COLOR]\n                    else:"))
+M("opacity-replaces-alpha", ["C14"], "fill-opacity replaces the colour's own alpha (the repaired defect)",
+  ("                self.fill.opacity = self.fill.opacity * float(fill_opacity)", "                self.fill.opacity = float(fill_opacity)"))
+M("css-comments-kept", ["C14"], "comments in the style sheet are not stripped",
+  ('                        textstyle = re.sub(REGEX_CSS_COMMENT, "", textstyle)', '                        textstyle = textstyle'))
+M("stroke-width-det-not-rooted", ["C14"], "stroke width scaled by |det| instead of its square root",
+  ("                return width * sqrt(abs(det))", "                return width * abs(det)"))
+M("non-scaling-stroke-ignored", ["C14"], "vector-effect is ignored: the full transform scales the stroke",
+  ("                    transform = Matrix(self.values.get(\"viewport_transform\", \"\"))", "                    pass"))
+M("selector-list-not-split", ["C14"], "comma separated selector lists are stored as one selector",
+  ('                            for selector in key.split(","):  # Can comma select subitems.', '                            for selector in [key]:  # Can comma select subitems.'))
+M("stroke-opacity-on-fill", ["C14"], "stroke-opacity is read from fill-opacity",
+  ("        stroke_opacity = values.get(SVG_ATTR_STROKE_OPACITY, stroke_opacity)", "        stroke_opacity = values.get(SVG_ATTR_FILL_OPACITY, stroke_opacity)"))
+M("class-split-single-space", ["C14"], "class lists are matched as one string",
+  ('                svg_classes = attributes.get(SVG_ATTR_CLASS, "").split()', '                svg_classes = [attributes.get(SVG_ATTR_CLASS, "")]'))
